@@ -376,6 +376,37 @@ theorem C07_multilinestring_roundtrip (parse : Parse) (fmt : Ord → String) (fu
   rw [e]
   cases Poly.setCoords l ((c0 :: line0) :: rest) <;> rfl
 
+/-- **MultiPolygon round trip** (first ring of the first polygon not empty). -/
+theorem C07_multipolygon_roundtrip (parse : Parse) (fmt : Ord → String) (fuel : Nat) (l : Nat)
+    (hl : 1 ≤ l) (h3 : l ≠ 3) (c0 : List Ord) (ring0 : List (List Ord))
+    (poly0 : List (List (List Ord))) (rest : List (List (List (List Ord))))
+    (hlen : c0.length = Layout.stride l)
+    (hr : ∀ css ∈ ((c0 :: ring0) :: poly0) :: rest, ∀ cs ∈ css, ∀ c ∈ cs, ∀ x ∈ c, Reads parse fmt x)
+    (g : GS) (ht : g.type = "MultiPolygon")
+    (hc : g.coordinates = some (jCoords3 fmt (((c0 :: ring0) :: poly0) :: rest))) :
+    decode parse (fuel + 1) g
+      = (MPoly.setCoords l (((c0 :: ring0) :: poly0) :: rest)).map .multiPolygon := by
+  unfold decode
+  simp only [ht, hc]
+  rw [decCoords3_j parse fmt _ hr]
+  simp only [Outcome.bind_ok, List.map_cons, guess3, guess2, guess1, guess0_of_stride l hl h3 c0 hlen]
+  have hun : ∀ css : List (List (List Ord)), (css.map (·.map some)).map unNil = css := by
+    intro css
+    rw [List.map_map]
+    rw [List.map_congr_left (g := id) (fun x _ => by simp [Function.comp, unNil_map_some])]
+    simp
+  have e : ((unNil (some c0 :: ring0.map some)) :: (poly0.map (·.map some)).map unNil)
+        :: (rest.map (·.map (·.map some))).map (·.map unNil)
+      = ((c0 :: ring0) :: poly0) :: rest := by
+    rw [show unNil (some c0 :: ring0.map some) = c0 :: ring0 from unNil_map_some (c0 :: ring0), hun]
+    congr 1
+    rw [List.map_map]
+    rw [List.map_congr_left (g := id) (fun x _ => by simp only [Function.comp]; exact hun x)]
+    simp
+  simp only [List.map_map, Function.comp_def] at e ⊢
+  rw [e]
+  cases MPoly.setCoords l (((c0 :: ring0) :: poly0) :: rest) <;> rfl
+
 /-- **MultiPoint round trip**: members `none` are empty points (written `null`); the first member
 must be a position. -/
 theorem C07_multipoint_roundtrip (parse : Parse) (fmt : Ord → String) (fuel : Nat) (l : Nat)
